@@ -390,6 +390,7 @@ fn fam_rewards(r: &mut Rng) -> Result<(), String> {
             let want = if s.treasury { vec![(fee, USER2.to_string())] } else { vec![] };
             if bank != want { errs.push(format!("treasury payments {bank:?}, expected {want:?}; {ctx}")); }
             if let Err(e) = check_oracle(&s, &sent, &deps) { errs.push(format!("{e}; {ctx}")); }
+            if let Err(e) = check_state_query(&deps) { errs.push(format!("{e} (after ReceiveRewards); {ctx}")); }
             if !errs.is_empty() { return Err(errs.join(" || ")); }
         }
     }
@@ -615,7 +616,7 @@ fn fam_fee_withdraw(r: &mut Rng) -> Result<(), String> {
 }
 
 fn fam_validation(r: &mut Rng) -> Result<(), String> {
-    let bad_channels = ["channel-+5", "channel-", "channel-channel-7", "channel-1x", "Channel-1", "channel-1/2", " channel-3"];
+    let bad_channels = ["channel", "channel123", "channels-1", "channel-+5", "channel-", "channel-channel-7", "channel-1x", "Channel-1", "channel-1/2", " channel-3"];
     let ch = r.pick(&bad_channels);
     let c = UnsafeProtocolChainConfig { account_address_prefix: "osmo".into(), ibc_token_denom: IBC_DENOM.into(), ibc_channel_id: ch.into(), minimum_liquid_stake_amount: Uint128::one(), oracle_address: None };
     if c.validate().is_ok() { return Err(format!("channel id {ch:?} was accepted by validation")); }
@@ -807,7 +808,8 @@ fn fam_treasury(r: &mut Rng) -> Result<(), String> {
     }
     if dump(&deps.storage) != before { return Err(format!("a swap changed storage; {ctx}")); }
     // spending and configuration: admin only
-    let recv = r.pick(&[USER2, NATIVE_USER, "osmo1invalid", "cosmos1xyz"]);
+    let (ext_local, ext_native) = (b32("osmovaloper", 9), b32("celestiavaloper", 9));
+    let recv = r.pick(&[USER2, NATIVE_USER, "osmo1invalid", "cosmos1xyz", ext_local.as_str(), ext_native.as_str()]);
     let chan = r.pick(&[None, Some("channel-7")]);
     let res = tre::execute(deps.as_mut(), mock_env(), mock_info(who, &[]), tre::ExecuteMsg::SpendFunds { amount: Coin::new(amt, denom), receiver: recv.into(), channel_id: chan.map(|x| x.to_string()) });
     let valid = if chan.is_none() { recv == USER2 } else { recv == NATIVE_USER };
@@ -892,7 +894,7 @@ const TAGS: &[(&str, &str)] = &[
     ("State query reports rate", "C15"),
     ("changed storage", "C08,C10,C07"),
     ("ReceiveRewards accepted from", "C08,C09"),
-    ("ReceiveRewards refused (", "C09"),
+    ("ReceiveRewards refused (", "C09,C08"),
     ("ReceiveRewards accepted while no LST", "C11"),
     ("ReceiveRewards accepted although the fee", "C11,C16"),
     ("retained fees", "C11,C02"),
@@ -909,7 +911,7 @@ const TAGS: &[(&str, &str)] = &[
     ("second pending batch", "C06"),
     ("before the unbonding period", "C06"),
     ("reward collector's hook", "C08,C09"),
-    ("ReceiveUnstakedTokens refused", "C09"),
+    ("ReceiveUnstakedTokens refused", "C09,C08"),
     ("Withdraw refused", "C05,C02"),
     ("Withdraw of", "C05,C02"),
     ("second Withdraw", "C05"),
@@ -929,6 +931,7 @@ const TAGS: &[(&str, &str)] = &[
     ("former", "C12"),
     ("FeeWithdraw", "C11,C02"),
     ("accepted by validation", "C14"),
+    ("surrounding blanks", "C14,C19"),
     ("upper-case prefix", "C14"),
     ("UpdateConfig", "C14"),
     ("recovery accepted although", "C07,C01,C02"),
@@ -951,7 +954,7 @@ const TAGS: &[(&str, &str)] = &[
     ("treasury UpdateConfig", "C13"),
     ("accepted by the dispatcher", "C08"),
     ("EMPTY pending batch", "C06"),
-    ("already Received", "C06"),
+    ("already Received", "C06,C02,C05"),
     ("not halted", "C10"),
     ("non-zero totals", "C01,C03"),
     ("at instantiation", "C06"),
@@ -1164,6 +1167,8 @@ fn fam_queries(r: &mut Rng) -> Result<(), String> {
             let st = if id == n { BatchStatus::Pending } else { [BatchStatus::Submitted, BatchStatus::Received, BatchStatus::Received][(r.next() % 3) as usize].clone() };
             let mut b = Batch::new(id, Uint128::new(10 * id as u128), 1000 + id);
             b.status = st.clone();
+            if st == BatchStatus::Received { b.next_batch_action_time = None; b.received_native_unstaked = Some(Uint128::new(9 * id as u128)); b.expected_native_unstaked = Some(Uint128::new(9 * id as u128)); }
+            if st == BatchStatus::Submitted { b.expected_native_unstaked = Some(Uint128::new(9 * id as u128)); }
             BATCHES.save(&mut deps.storage, id, &b).unwrap();
             all.push((id, st));
         }
@@ -1579,6 +1584,9 @@ fn fam_proto(r: &mut Rng) -> Result<(), String> {
     if back != m { return Err("Any packing and unpacking of MsgSend is not the identity".into()); }
     if cosmos::bank::v1beta1::MsgMultiSend::from_any(&any).is_ok() { return Err("Any unpacking accepted a mismatched type URL (MsgSend unpacked as MsgMultiSend)".into()); }
     if cosmos::staking::v1beta1::MsgDelegate::from_any(&any).is_ok() { return Err("Any unpacking accepted a mismatched type URL (MsgSend unpacked as MsgDelegate)".into()); }
+    let mut hosted = any.clone();
+    hosted.type_url = format!("type.googleapis.com{}", any.type_url);
+    if cosmos::bank::v1beta1::MsgSend::from_any(&hosted).is_ok() { return Err(format!("Any unpacking accepted a mismatched type URL ({:?} is not the registered {:?})", hosted.type_url, any.type_url)); }
     // byte identity with the independently generated bindings for shared messages
     let o = osmosis_std::types::cosmos::bank::v1beta1::MsgSend { from_address: m.from_address.clone(), to_address: m.to_address.clone(),
         amount: vec![osmosis_std::types::cosmos::base::v1beta1::Coin { denom: "uinit".into(), amount: amt.clone() }] };
@@ -1587,6 +1595,10 @@ fn fam_proto(r: &mut Rng) -> Result<(), String> {
     let t = cosmos::base::abci::v1beta1::TxResponse { height: h, txhash: "AB".into(), gas_wanted: gw, gas_used: gu, ..Default::default() };
     let ot = osmosis_std::types::cosmos::base::abci::v1beta1::TxResponse { height: h, txhash: "AB".into(), gas_wanted: gw, gas_used: gu, ..Default::default() };
     if t.encode_to_vec() != ot.encode_to_vec() { return Err("wire bytes of cosmos.base.abci.v1beta1.TxResponse differ from the independently generated binding".into()); }
+    let ids: Vec<u64> = (0..(1 + r.next() % 4)).map(|_| r.next() % 1000).collect();
+    let v = cosmos::staking::v1beta1::Validator { operator_address: b32("initvaloper", 4), jailed: true, tokens: "12345".into(), unbonding_height: h, unbonding_on_hold_ref_count: 3, unbonding_ids: ids.clone(), ..Default::default() };
+    let ov = osmosis_std::types::cosmos::staking::v1beta1::Validator { operator_address: b32("initvaloper", 4), jailed: true, tokens: "12345".into(), unbonding_height: h, unbonding_on_hold_ref_count: 3, unbonding_ids: ids, ..Default::default() };
+    if v.encode_to_vec() != ov.encode_to_vec() { return Err("wire bytes of cosmos.staking.v1beta1.Validator differ from the independently generated binding".into()); }
     let d = cosmos::staking::v1beta1::MsgDelegate { delegator_address: b32("init", 3), validator_address: b32("initvaloper", 4), amount: Some(cosmos::base::v1beta1::Coin { denom: "uinit".into(), amount: amt.clone() }) };
     let od = osmosis_std::types::cosmos::staking::v1beta1::MsgDelegate { delegator_address: d.delegator_address.clone(), validator_address: d.validator_address.clone(), amount: Some(osmosis_std::types::cosmos::base::v1beta1::Coin { denom: "uinit".into(), amount: amt }) };
     if d.encode_to_vec() != od.encode_to_vec() { return Err("wire bytes of cosmos.staking.v1beta1.MsgDelegate differ from the independently generated binding".into()); }
@@ -1662,7 +1674,16 @@ fn main() {
     for f in fams {
         for case in 0..n {
             if let Err(e) = one(f, seed, case) {
-                let props = tags_for(&e);
+                let mut props = tags_for(&e);
+                if e.contains("PANICKED") {
+                    // a panic inside a family's flow also breaks what that flow's property promises about the operation
+                    let extra: &[&'static str] = match f { "batch" | "funds" => &["C05", "C06"], "stake" => &["C04", "C03"], "rewards" | "fee_withdraw" => &["C11"], "recover" | "ibc" => &["C07"],
+                        "treasury" => &["C13"], "migrate" => &["C18"], "queries" => &["C17"], "validation" | "config" | "instantiate" => &["C14"], "halt" => &["C10"],
+                        "ownership" | "treasury_ownership" => &["C12"], "auth" => &["C08"], "proto" => &["C20"], _ => &[] };
+                    for x in extra { if !props.contains(x) { props.push(x); } }
+                }
+                // the two builds must behave identically: a mismatch that only the miniwasm build shows is C19's as well
+                if cfg!(feature = "miniwasm") && !props.is_empty() && !props.contains(&"C19") { props.push("C19"); }
                 if props.is_empty() { eprintln!("driver set-up failure (ignored): {f} case {case}: {e}"); continue; }
                 if !want.is_empty() && !props.iter().any(|p| want == *p) { continue; }
                 println!("{}", serde_json::json!({"family": f, "seed": seed, "case": case, "failure": e, "props": props}));
